@@ -568,18 +568,20 @@ class ChildWorld:
             x = _np.frombuffer(ob["x"], dtype=_np.float64).copy()
             state = st.UnitArray(x, st.Units(sys=eus, dim=st.quantity_units_dimensions()), check_value=False)
             U = st.UnitsSystem(**op[3])
+            # "apply_chemostats" is any truthy value: the literal, an int, a numpy boolean (e.g. system.chemostats.any())
+            ac_ = [True, 1, _np.bool_(True)][len(ob["x"]) % 3] if op[2] else [False, 0, _np.bool_(False)][len(ob["x"]) % 3]
             ev["x"] = ob["x"]
             ev["t"] = ob["t"]
             vals, dims = [], []
             from strengths import kinetics
             if op[1] == "all":
-                r = kinetics.compute_dstatedt(system, state=state, apply_chemostats=bool(op[2]), units_system=U)
+                r = kinetics.compute_dstatedt(system, state=state, apply_chemostats=ac_, units_system=U)
                 vals = [float(v) for v in r.value]
                 dims = [[r.units.dim["space"], r.units.dim["time"], r.units.dim["quantity"]]]
                 ev["usys"] = [r.units.sys["space"], r.units.sys["time"], r.units.sys["quantity"]]
             else:
                 for (s, i) in op[1]:
-                    r = kinetics.compute_dspeciesdt(system, int(s), int(i), state, bool(op[2]), U)
+                    r = kinetics.compute_dspeciesdt(system, int(s), int(i), state, ac_, U)
                     vals.append(float(r.value))
                     dims.append([r.units.dim["space"], r.units.dim["time"], r.units.dim["quantity"]])
                     ev.setdefault("usys_list", []).append([r.units.sys["space"], r.units.sys["time"], r.units.sys["quantity"]])
